@@ -672,7 +672,7 @@ func c18Judge(route string, want bool, o c18Obs) []c18Vio {
 		if o.Marker || o.Sig != "" {
 			v = append(v, c18Vio{"C18:http:content-in-answer-although-denied:" + route, fmt.Sprintf("answer carries content (mock data=%v, signature=%q)", o.Marker, o.Sig)})
 		}
-		if o.Status < 400 {
+		if o.Status != 0 && o.Status < 400 { // no parsable answer at all (connection dropped) is a failure too
 			v = append(v, c18Vio{"C18:http:no-failure-status-although-denied:" + route, fmt.Sprintf("status %d", o.Status)})
 		}
 	} else if o.Status == 401 || o.Status == 403 {
